@@ -314,3 +314,29 @@ PROPS['C06'] = dict(
     level_text='Unbounded theorems: along any chain and for any byte strings offered at any heights, no signed content (sign bytes, signer key, signature) is executed twice, executed transactions carry this network and chain id and lie inside the creation-height window; the canonical encoding is a bijection (decode after encode is the identity, at most one canonical byte string per transaction, sign bytes determine the content). The protobuf model is compared with the real library on mutated encodings and the replay model with a real chain on every check. Two replay vectors were found and repaired (KNOWN_FINDINGS.txt). Partial: nonce-based RLPV2 transactions are outside the model.',
     level_note='Trusted: Coq kernel, the hand-written protobuf mirror tied by differential testing, ideal hash, crypto assumptions listed. RLPV2 (Ethereum nonce) path not modelled.',
 )
+
+PROPS['C18'] = dict(
+    props='props/C18.v',
+    models=['Mux'],
+    harness='c18',
+    args=dict(quick=['-split', '60', '-asm', '80', '-conc', '6'], escalated=['-split', '120', '-asm', '200', '-conc', '20'], thorough=['-split', '400', '-asm', '1500', '-conc', '120']),
+    fingerprint_groups=['Mux'],
+    rule='(split) the real packetisation on buffer lengths 0, 1, lim-1, lim, lim+1, 2lim-1 .. 2lim+1 and random, for small limits and for the '
+         'real chunk limit, compared with Mux.split; (assembler) random packet sequences over four topics (random EOF marks, empty and short '
+         'payloads, messages left open, messages closed at once) through real Stream.handlePacket instances, compared with Mux.handle_packet '
+         'packet by packet; (concurrent) two real P2P nodes over net.Pipe - real handshake, encrypted frames, send and receive services - with '
+         '2-5 goroutines calling MultiConn.Send concurrently, half of them on the SAME topic, with messages of 0, 1, 31, chunk-1, chunk, chunk+1, '
+         '2 chunks+17, 3 chunks and random sizes (up to 3 MB); every message delivered to the remote inboxes is matched by topic, length and '
+         'SHA-256 against the sent ones; Coq judges the id lists: nothing invented (no truncated or merged message), nothing twice, each '
+         'sender\'s order kept per topic; non-trivial: every case',
+    modelled='hand-modelled: split, Send\'s packet marking, the per-topic send queues and the single sender as an arbitrary order-preserving interleaving, '
+             'Stream.handlePacket (assembler, size cap, delivery on EOF). Not modelled: the rate limiter, heartbeats, queue time-outs (a Send that '
+             'fails half-way leaves a partial message on the queue: C18_partial_enqueue_merges shows what that would do; the implementation then '
+             'returns false but does not close the connection - observation O-9 in DESIGN.md), inbox overflow (messages may be dropped, which the '
+             'property allows), data races (a theorem cannot exhibit them; the concurrent run is also executed under the race detector in the '
+             'thorough tier when the toolchain supports it).',
+    assumptions=['the transport below delivers the packets in order and unmodified (C17)', 'messages are at most maxMessageSize'],
+    trusted_base=['model/Mux.v is a hand-written mirror of the packetisation and reassembly in p2p/conn.go tied by the correspondence run'],
+    level_text='Unbounded theorem: for any number of topics, any messages within the limit and every schedule of the sending goroutine, each topic\'s inbox receives exactly the messages sent on it, whole and in order, and nothing arrives on another topic; over-limit messages close the connection without partial delivery. The pure functions are compared with the real ones and real connection pairs are driven with concurrent same-topic and cross-topic senders on every check. Freedom from data races is outside what a theorem can show (partial).',
+    level_note='Partial: goroutine-level races and channel time-outs are runtime behaviour the model cannot exhibit; the over-limit branch (256 MB) is proved, not exercised.',
+)
